@@ -56,7 +56,7 @@ def run_attrs(pid, tier):
         defs = {x["name"]: x for x in m["defs"]}
         T, V, E = defs["T"], defs["V"], defs["E"]
         h, vf = m["impls"][0]["funcs"][0], V["vft"]["funcs"][0]
-        it = {n: proj_item(obs, ["m", n]) for n in ("T", "V", "VVftable", "D", "DV", "E", "Bt")}
+        it = {n: proj_item(obs, ["m", n]) for n in ("T", "V", "VVftable", "D", "DV", "E", "Bt", "Big")}
         files = {tuple(f["rel"][:-3].split("/")): f.get("proj") for f in obs.get("files", [])}
         fproj = files.get(("m",))
         p = []
@@ -98,6 +98,8 @@ def run_attrs(pid, tier):
         marker = lambda ds: sorted(set(ds or []) & {"Copy", "Clone", "Default"})
         eq("T derives", marker(it["T"].get("derives")), sorted(want_derives(T)))
         eq("E derives", marker(it["E"].get("derives")), sorted(want_derives(E)))
+        Big = next(d for d in m["defs"] if d["name"] == "Big")
+        eq("Big derives (arrays of more than 32 elements)", marker(it["Big"].get("derives")), sorted(want_derives(Big)))
         eq("T packed", bool(it["T"].get("repr", {}).get("packed")), T["packed"])
         if T["packed"]:
             eq("T align attribute on a packed type", it["T"].get("repr", {}).get("align"), NONE)
@@ -118,7 +120,9 @@ def run_attrs(pid, tier):
         if vf["vis"] == "pub" or dvf is not None:
             eq("inherited wrapper DV::vf doc", dvf and dvf["doc"], vf["doc"])
         eq("D doc", it["D"]["doc"], []); eq("DV doc", it["DV"]["doc"], [])
-        if case["input"]["ptr"] == 8 and cid in pl.cfail["host"]:
+        # `Default` is not implemented for arrays of more than 32 elements: a defaultable `Big` cannot compile (documented limit,
+        # outside C13's fragment); its derive list is judged above, the compile verdict of such a case is not
+        if case["input"]["ptr"] == 8 and cid in pl.cfail["host"] and not Big["defaultable"]:
             p.append(f"does not compile: {pl.cfail['host'][cid]}")
         if p:
             res.violation("; ".join(p[:3]), payload(case, obs))
